@@ -29,3 +29,297 @@ ASSUMPTIONS = base.ASSUMPTIONS
 EXPLANATION = ("C01's contracts in skip mode: symbolic name sets S_save / S_load (membership predicates over all strings), abstract type tuple T_save, symbolic attribute names; "
                "postcondition present(n) <=> n in attrs and not (n in S_save or isinstance(value, T_save)) and n not in S_load at every level reached through attributes, "
                "survivors ~ originals, skip lists forwarded unchanged to every recursive call, persisted by save and merged by load")
+
+
+# ------------------------------------------------------------------------------------------------
+# Ptychography.save : the skip list handed to AutoSerialize.save is this call's names (+ the raw-data names), whatever ran before
+# ------------------------------------------------------------------------------------------------
+
+import copy
+import functools
+import os
+import types as _types
+
+from pyvc.interp import NS
+from pyvc.registry import Contract
+from pyvc.lib import super_ as _super_model
+from pyvc.lib.c01_models import StrSym
+from .common import frame_snapshot, frame_clauses
+from .C01 import B, pick, run_real, names_equiv, AS
+
+PTY = "quantem.diffractive_imaging.ptychography"
+PTB = "quantem.diffractive_imaging.ptychography_base"
+
+from quantem.diffractive_imaging.ptychography import Ptychography  # noqa: E402
+
+
+def _mutable_class_state(cls):
+    out = {}
+    for k in cls.__mro__:
+        if (k.__module__ or "").startswith("quantem"):
+            for n, v in vars(k).items():
+                if isinstance(v, (list, dict, set)):
+                    out[(k, n)] = (v, copy.deepcopy(v))
+    return out
+
+
+_CLASS_STATE = _mutable_class_state(Ptychography)  # taken at import: class-level lists / dicts / sets as the source defines them
+
+
+def restore_class_state():
+    """Interpretation runs natively on real class objects: put class-level mutable attributes back to their source values before each
+    path, so that what a path sees of them is what THIS path's history did to them."""
+    for (k, n), (v, pristine) in _CLASS_STATE.items():
+        if isinstance(v, list):
+            v[:] = copy.deepcopy(pristine)
+        elif isinstance(v, dict):
+            v.clear()
+            v.update(copy.deepcopy(pristine))
+        else:
+            v.clear()
+            v.update(pristine)
+
+
+class _FakeTensor:
+    def __init__(self, name):
+        self.name = name
+        self.data = self
+
+    def cpu(self):
+        return self
+
+
+def mk_ptycho(tag):
+    """Abstract Ptychography instance holding only what save() reads (device / verbosity state and the dataset handles)."""
+    from pyvc.values import Obj
+
+    dset = _types.SimpleNamespace(dset=_types.SimpleNamespace(file_path=None), _preprocessing_params={"tag": tag},
+                                  scan_positions_px=_FakeTensor("scan"), descan_shifts=_FakeTensor("descan"))
+    return Obj(Ptychography, dict(_device="cpu", _verbose=0, dset=dset, _dset=dset, _tag=tag))
+
+
+PSKIP_FORMS = ["()", "name", "type", "[n1]", "[n1,T]", "(n1,n2)"]
+
+
+def mk_pskip(ctx, form, tag):
+    import numpy as np
+
+    n1 = StrSym(z3.String(ctx.fresh_name(tag + "_n1")))
+    n2 = StrSym(z3.String(ctx.fresh_name(tag + "_n2")))
+    T = np.ndarray
+    val = {"()": (), "name": n1, "type": T, "[n1]": [n1], "[n1,T]": [n1, T], "(n1,n2)": (n1, n2)}[form]
+    names = {"()": [], "name": [n1], "type": [], "[n1]": [n1], "[n1,T]": [n1], "(n1,n2)": [n1, n2]}[form]
+    return val, names, ((T,) if form in ("type", "[n1,T]") else ())
+
+
+PHIST = ["first-save-in-the-process", "after-an-earlier-save-of-this-object-with-other-skips", "after-an-earlier-save-of-another-object-with-other-skips"]
+
+
+def psave_setup(ctx):
+    import torch
+
+    restore_class_state()
+    form = pick(ctx, "skipform", PSKIP_FORMS)
+    raw = pick(ctx, "save_raw_data", [False, True])
+    hist = pick(ctx, "history", PHIST)
+    me = mk_ptycho("this")
+    case = f"skip={form},save_raw_data={raw},{hist}"
+    if hist != PHIST[0]:
+        # pre-state: save() already ran (default raw-data handling) with a non-empty skip list naming OTHER names and a type
+        earlier = me if hist == PHIST[1] else mk_ptycho("other")
+        m1 = StrSym(z3.String(ctx.fresh_name("earlier_n1")))
+        m2 = StrSym(z3.String(ctx.fresh_name("earlier_n2")))
+        run_real(ctx, f"{PTY}:Ptychography.save", [earlier, "/ghost/earlier.zip"],
+                 dict(mode="w", store="zip", skip=[m1, m2, torch.Tensor], compression_level=4, save_raw_data=False, verbose=False), label=f"[{case}]earlier-save")
+        ctx.ghost["as_save_calls"] = []
+    skip, names, types = mk_pskip(ctx, form, "skip")
+    return NS(self=me, path="/ghost/this.zip", param_values={"mode": "w"}, store="zip", skip=skip, compression_level=4, save_raw_data=raw, verbose=False,
+              names=names, types=types, case=case)
+
+
+def _rec_save(ctx, s):
+    sk = s.skip
+    ctx.ghost.setdefault("as_save_calls", []).append(NS(obj=s.self, path=s.path, store=s.store, compression_level=s.compression_level,
+                                                       skip=list(sk) if isinstance(sk, (list, tuple)) else [sk]))
+
+
+C_ASAVE_RECORDED = Contract(f"{AS}.save", modifies=_rec_save)  # inside Ptychography.save's proof: AutoSerialize.save is used through what it is handed
+
+
+def psave_ensures(s):
+    ctx = s.ctx
+    c = f"[{s.case}]"
+    calls = ctx.ghost.get("as_save_calls", [])
+    out = [(c + "AutoSerialize.save-called-exactly-once", B(len(calls) == 1))]
+    if len(calls) == 1:
+        k = calls[0]
+        out.append((c + "saves-this-object-at-the-given-path/store/compression", B(k.obj is s.self and k.path == s.path and k.store == s.store and k.compression_level == s.compression_level)))
+        want = list(s.names) + ([] if s.save_raw_data else ["_dset", "dset"])
+        got_names = [x for x in k.skip if base.is_name(x)]
+        got_types = [x for x in k.skip if isinstance(x, type)]
+        out.append((c + "skip-names-handed-to-AutoSerialize.save=this-call's-names+raw-data-names(unless-save_raw_data)", names_equiv(got_names, want, ctx)))
+        out.append((c + "skip-types-handed-to-AutoSerialize.save=this-call's-types", B(set(got_types) == set(s.types) and len(got_names) + len(got_types) == len(k.skip))))
+    out += [(c + lab, t) for lab, t in frame_clauses(s, s.old.frame)]
+    return out
+
+
+C_PSAVE = Contract(f"{PTY}:Ptychography.save", setup=psave_setup, ensures=psave_ensures,
+                   snapshot=lambda s: NS(frame=frame_snapshot(s, ["skip"])), overrides={f"{AS}.save": C_ASAVE_RECORDED})
+C_PSAVE.canary_path_limit = 16
+
+CONTRACTS = CONTRACTS + [C_PSAVE]
+
+
+def make_registry():  # noqa: F811
+    reg = base.make_registry(skip_mode=True)
+    _super_model.install(reg)
+    reg.add_contract(C_PSAVE)
+    reg.opaque_calls = set(getattr(reg, "opaque_calls", ())) | {f"{PTB}:PtychographyBase.to"}
+    reg.method_models[(list, "extend")] = lambda interp, l, xs: l.extend(xs)
+    return reg
+
+
+TRUSTED = list(TRUSTED) + ["Ptychography.save: PtychographyBase.to (device moves) is an opaque collaborator with an assumed frame (it does not touch the skip list); "
+                           "AutoSerialize.save is used there through the arguments it is handed (its own contract is verified separately)"]
+
+
+# ---- run-time oracle: real Ptychography objects, real save / load, a history of save calls in one process
+
+_PT = {}
+
+
+def _build_ptycho(seed=0, N=16, scan=4):
+    import warnings
+
+    import matplotlib
+
+    matplotlib.use("Agg")
+    import numpy as np
+
+    from quantem.core.datastructures.dataset4dstem import Dataset4dstem
+    from quantem.diffractive_imaging.dataset_models import PtychographyDatasetRaster
+    from quantem.diffractive_imaging.detector_models import DetectorPixelated
+    from quantem.diffractive_imaging.object_models import ObjectPixelated
+    from quantem.diffractive_imaging.probe_models import ProbePixelated
+
+    if seed in _PT:
+        return _PT[seed]
+    with warnings.catch_warnings():
+        warnings.simplefilter("ignore")
+        rng = np.random.default_rng(seed)
+        arr = rng.random((scan, scan, N, N)).astype(np.float32) + 0.1
+        d = Dataset4dstem.from_array(array=arr, sampling=(1, 1, 0.05, 0.05), units=("A", "A", "A^-1", "A^-1"))
+        pd = PtychographyDatasetRaster.from_dataset4dstem(d, verbose=0)
+        pd.preprocess(com_fit_function="constant", plot_rotation=False, plot_com=False, probe_energy=300e3, force_com_rotation=0, force_com_transpose=False)
+        obj = ObjectPixelated.from_uniform(num_slices=1, obj_type="complex", slice_thicknesses=1)
+        probe = ProbePixelated.from_params(num_probes=1, probe_params={"energy": 300e3, "defocus": 50, "semiangle_cutoff": 20})
+        pt = Ptychography.from_models(dset=pd, obj_model=obj, probe_model=probe, detector_model=DetectorPixelated(), rng=1, verbose=0)
+        pt.preprocess(obj_padding_px=(0, 0))
+        pt._c14_note = {"a": [0.5, 0.25]}
+        pt._c14_flag = "keep"
+    _PT[seed] = pt
+    return pt
+
+
+def rt_ptycho(inp):
+    """History of Ptychography.save calls on real objects: every file must lack exactly the names of ITS call (+ _dset/dset unless save_raw_data)
+    and otherwise load like a default save; the skip argument reaching AutoSerialize.save is recorded as well."""
+    import contextlib
+    import io as _io
+    import warnings
+
+    import numpy as np
+
+    from quantem.core.io.serialize import AutoSerialize as _AS, load
+
+    store = inp.get("store", "zip")
+    d = base._tmpdir()
+    problems = []
+    seen = []
+    orig = _AS.save
+
+    def recording(self, path, mode="w", store="auto", skip=(), compression_level=4):
+        seen.append(list(skip) if isinstance(skip, (list, tuple)) else [skip])
+        return orig(self, path, mode=mode, store=store, skip=skip, compression_level=compression_level)
+
+    typ = {"ndarray": np.ndarray}
+    steps = inp.get("steps") or [dict(obj=0, skip=[]), dict(obj=0, skip=["_c14_note", "_c14_flag"]), dict(obj=0, skip=[]), dict(obj=1, skip=[])]
+    with warnings.catch_warnings(), contextlib.redirect_stdout(_io.StringIO()):
+        warnings.simplefilter("ignore")
+        _AS.save = recording
+        try:
+            ref = {}
+            for i, st in enumerate(steps):
+                pt = _build_ptycho(st.get("obj", 0))
+                names = [x for x in st.get("skip", []) if x not in typ]
+                skip = names + [typ[x] for x in st.get("skip", []) if x in typ]
+                p = os.path.join(d, f"s{i}.zip" if store == "zip" else f"s{i}")
+                user_skip = skip[0] if st.get("bare") and len(skip) == 1 else (tuple(skip) if st.get("tuple") else list(skip))
+                before = list(user_skip) if isinstance(user_skip, list) else None
+                pt.save(p, store=store, skip=user_skip, save_raw_data=st.get("raw", False), verbose=False)
+                if before is not None and list(user_skip) != before:
+                    problems.append(("the caller's skip list is written", f"step {i}", f"{before} -> {user_skip}"))
+                want = set(names) | (set() if st.get("raw") else {"_dset", "dset"})
+                got = {x for x in seen[-1] if isinstance(x, str)}
+                if got != want:
+                    problems.append(("skip names of an earlier save applied to a later one" if got - want else "skip names of this call missing",
+                                     f"step {i}", f"AutoSerialize.save got skip names {sorted(got)}, this call names {sorted(want)}"))
+                if not st.get("raw") and not [x for x in skip if isinstance(x, type)]:
+                    r = load(p)
+                    have = set(vars(r)) - {"_autoserialize_skip_names", "_autoserialize_skip_types"}
+                    key = st.get("obj", 0)
+                    if not names:
+                        ref.setdefault(key, have)
+                    exp = (ref.get(key) or have) - set(names)
+                    if key in ref and have != exp:
+                        problems.append(("attribute set of a later save differs from a default save", f"step {i}",
+                                         f"missing {sorted(exp - have)[:5]} extra {sorted(have - exp)[:5]}"))
+        except Exception as e:
+            problems.append(("Ptychography.save history raises " + type(e).__name__, "", f"{type(e).__name__}: {str(e)[:200]}"))
+        finally:
+            _AS.save = orig
+    only = inp.get("only_class")
+    if only:
+        problems = [q for q in problems if q[0] == only]
+    return dict(violated=bool(problems), observed="; ".join(f"{k} at {w}: {m}" for k, w, m in problems[:3]) or "ok",
+                expected="each file lacks exactly the names of its own save call (+ _dset/dset)", problems=problems)
+
+
+def fam_ptycho(tier="quick", seed=0):
+    yield dict(store="zip")
+    yield dict(store="dir", steps=[dict(obj=0, skip=["_c14_note"], bare=True), dict(obj=1, skip=[]), dict(obj=0, skip=["_c14_flag", "ndarray"]), dict(obj=0, skip=[]),
+                                    dict(obj=0, skip=["_c14_flag"], tuple=True), dict(obj=1, skip=[])])
+    if tier != "quick":
+        yield dict(store="zip", steps=[dict(obj=0, skip=["_c14_note"], raw=True), dict(obj=0, skip=[]), dict(obj=0, skip=[], raw=True), dict(obj=1, skip=["_c14_flag"]), dict(obj=0, skip=[])])
+
+
+def run_ptycho_bounded(tier, seed):
+    fails, n, seen = [], 0, set()
+    for inp in fam_ptycho(tier, seed):
+        n += 1
+        res = rt_ptycho(inp)
+        for k, w, m in res["problems"]:
+            if k not in seen:
+                seen.add(k)
+                fails.append(dict(case=dict(inp, only_class=k), klass=k, observed=f"{k} at {w}: {m}", expected=res["expected"]))
+    return dict(evaluations=n, distinct=n, failures=fails)
+
+
+B_PTYCHO = Bounded("Ptychography.save call histories (real objects, real save/load)", run_ptycho_bounded,
+                   "two small real Ptychography objects; 4-6 saves per history with/without skip names, a type, bare str / tuple / list forms, both stores (thorough: save_raw_data)")
+B_PTYCHO.rt = lambda inp: {k: v for k, v in rt_ptycho(inp).items() if k != "problems"}
+BOUNDED = BOUNDED + [B_PTYCHO]
+
+
+def conc_psave(ev):
+    i, h, r = ev("skipform"), ev("history"), ev("save_raw_data")
+    form = PSKIP_FORMS[i] if isinstance(i, int) and 0 <= i < len(PSKIP_FORMS) else "()"
+    names = {"()": [], "name": ["_c14_note"], "type": ["ndarray"], "[n1]": ["_c14_note"], "[n1,T]": ["_c14_note", "ndarray"], "(n1,n2)": ["_c14_note", "_c14_flag"]}[form]
+    this = dict(obj=0, skip=names, bare=form in ("name", "type"), tuple=form == "(n1,n2)", raw=bool(r == 1))
+    steps = [dict(obj=0, skip=[])]
+    if isinstance(h, int) and h >= 1:
+        steps.append(dict(obj=0 if h == 1 else 1, skip=["_c14_flag", "_iter_lrs"]))
+    return dict(store="zip", steps=steps + [this, dict(obj=0, skip=[])])
+
+
+C_PSAVE.concretize, C_PSAVE.rt = conc_psave, B_PTYCHO.rt
